@@ -18,6 +18,7 @@ import CnvVerif.Driver.Export
 import CnvVerif.Driver.ExportExt
 import CnvVerif.Driver.ExportCiExt5
 import CnvVerif.Driver.Reference
+import CnvVerif.Driver.ReferenceExt5
 import CnvVerif.Driver.Coverage
 import CnvVerif.Driver.CoverageExt
 import CnvVerif.Driver.Effects
@@ -36,7 +37,7 @@ import CnvVerif.Driver.RangesExt
 open Lean CnvVerif.Drv
 
 def handlers : List (String → Json → Option Json → R (Option Json)) :=
-  [handleInterval, handleRangesExt, handleCall, handleCallCmd, handleSegFilter, handleSegFilterExt, handleTile, handleCenter, handleSexExt, handleFix, handleAccess, Genes.handleGenes, handleFormats, handleFormatsExt, handleExport, handleExportExt, C20Ci.handleExportCi, Reference.handleReference, handleCoverage, handleCoverageExt, handleEffects, handleEffectsExt, handleBins, handleVcf, handleVcfExt, handleDescriptives, Haar.handleHaar, HaarExt.handleHaarExt, handleStats, handleStatsGlue, handleStatsExt5, handleSegFilterExt5, handleAccessExt5, handleDescLoopExt5]
+  [handleInterval, handleRangesExt, handleCall, handleCallCmd, handleSegFilter, handleSegFilterExt, handleTile, handleCenter, handleSexExt, handleFix, handleAccess, Genes.handleGenes, handleFormats, handleFormatsExt, handleExport, handleExportExt, C20Ci.handleExportCi, Reference.handleReference, handleCoverage, handleCoverageExt, handleEffects, handleEffectsExt, handleBins, handleVcf, handleVcfExt, handleDescriptives, Haar.handleHaar, HaarExt.handleHaarExt, handleStats, handleStatsGlue, handleStatsExt5, handleSegFilterExt5, handleAccessExt5, handleDescLoopExt5, ReferenceExt5.handleReferenceExt5]
 
 def dispatch (op : String) (inp : Json) (impl : Option Json) : R Json := do
   for h in handlers do
